@@ -17,7 +17,9 @@ TOL = 350
 
 def mk(sid, L, R, pattern, direction="in"):
     c = S.Conv(sid, direction=direction, hold=L, tag="hold.%d.%d.%s.%s" % (L, R, pattern, direction))
-    c.send(S.frame(S.OPEN, S.open_body(hold=R))).send(S.frame(S.KEEPALIVE))
+    c.send(S.frame(S.OPEN, S.open_body(hold=R)))
+    if pattern != "late-keepalive":
+        c.send(S.frame(S.KEEPALIVE))
     h = min(L, R)
     c.h = h
     c.pattern = pattern
@@ -27,6 +29,9 @@ def mk(sid, L, R, pattern, direction="in"):
         c._stay_open = True
     elif pattern == "silent":
         steps += [["recv_eof", "c1", h * 1000 + 1500]]
+    elif pattern == "late-keepalive":
+        # the first KEEPALIVE arrives well after the OPEN; the hold timer must restart there
+        steps += [["sleep", int(h * 600)], ["send", "c1", S.frame(S.KEEPALIVE).hex(), 0], ["recv_eof", "c1", h * 1000 + 1500]]
     elif pattern == "ka-then-silent":
         # keepalives at 0.6h intervals, three times, then silence
         for _ in range(3):
@@ -47,7 +52,7 @@ def convs(rng, tier):
     if tier == "thorough":
         pairs += [(3, 4), (4, 3), (6, 6), (9, 9), (6, 3), (5 + 1, 65535)]
     for (L, R) in pairs:
-        pats = ["silent"] if min(L, R) == 0 else ["silent", "ka-then-silent", "update-just-before"]
+        pats = ["silent"] if min(L, R) == 0 else ["silent", "ka-then-silent", "update-just-before", "late-keepalive"]
         for p in pats:
             for d in (("in", "out") if tier == "thorough" or p == "silent" else ("in",)):
                 out.append(mk(sid, L, R, p, d))
@@ -78,7 +83,7 @@ def timing_check(c, e, o, r):
         if expiry or (cr["eof"] and cr["eof_at"] < t_est + 3500):
             bad.append("hold 0: session torn down during silence")
         return bad
-    if c.pattern == "silent":
+    if c.pattern in ("silent", "late-keepalive"):
         last_rx = t_est
     elif c.pattern == "ka-then-silent":
         last_rx = t_est + 3 * int(c.h * 600)
